@@ -53,7 +53,7 @@ ENat(n) == NC!EncNat(U(n))
 ENat4(v) == NC!EncNat(Ext8(v))
 
 \* ---------------------------------------------------------------- the assembled program (cost table of the driver)
-OpInstr(op) == CASE op.op = "fetch" -> 8 [] op.op = "call" -> Len(op.regs) + 2 [] op.op = "hist" -> 7 [] op.op = "export" -> 4 [] OTHER -> 6
+OpInstr(op) == CASE op.op = "xfer" -> 6 [] op.op = "ckpt" -> 2 [] op.op = "fetch" -> 8 [] op.op = "call" -> Len(op.regs) + 2 [] op.op = "hist" -> 7 [] op.op = "export" -> 4 [] OTHER -> 6
 SlotLen(op) == CASE op.op \in {"fetch", "hist"} -> 8 + op.cap [] op.op = "info" -> 104 [] OTHER -> 8
 EndInstr(e) == CASE e \in {"halt", "halt0"} -> 3 [] e = "spin" -> 2 [] OTHER -> 1
 InstrUpTo(script, k) == LET RECURSIVE go(_) go(j) == IF j = 0 THEN 0 ELSE go(j - 1) + OpInstr(script[j]) IN go(k)
@@ -123,7 +123,10 @@ SlotOf(c, aux, k, arg, dev) ==
     [] op.op = "hist" -> HistSlot(c, op)
     [] op.op = "call" -> CallSlot(c, k)
     [] op.op = "export" -> LET n == c.zeta + ExportsBefore(c, k) IN Alts({IF n >= WX THEN FULL ELSE U(n)})
-    [] OTHER -> Alts({U(96) \o InfoBytes(SelfAfterArg(c, arg))})
+    [] op.op = "xfer" -> Alts({OK})                      \* the generated transfers are all payable (XferOK is checked by MC_Invocations)
+    [] op.op = "ckpt" -> AnySlot
+    [] OTHER -> LET spent == BSum([q \in 1..(k - 1) |-> IF c.script[q].op = "xfer" THEN c.script[q].amt ELSE <<>>]) IN
+                Alts({U(96) \o InfoBytes([SelfAfterArg(c, arg) EXCEPT !.bal = BPad(BSub(@, spent), 8)])})
 \* does `out` consist of acceptable slots ?
 SlotsOK(c, aux, out, arg, dev) ==
   /\ Len(out) = SlotsLen(c.script)
@@ -134,6 +137,28 @@ SlotsOK(c, aux, out, arg, dev) ==
 ExportsOf(c) == LET idx == {k \in 1..Len(c.script) : c.script[k].op = "export" /\ c.zeta + ExportsBefore(c, k) < WX}
                     RECURSIVE go(_) go(k) == IF k > Len(c.script) THEN <<>> ELSE (IF k \in idx THEN <<c.script[k].data>> ELSE <<>>) \o go(k + 1)
                 IN go(1)
+
+\* ---------------------------------------------------------------- accumulate: transfers and checkpoints (B.8-B.13)
+\* Both contexts start equal; a payable transfer moves its amount from the caller's balance of x into x's deferred transfers;
+\* checkpoint copies x to y; a regular halt returns x, panic / out-of-gas return y.  View = [bal, xf].
+XView(c) == LET a0 == c.svcs[SvcIndex(c.svcs, c.self)]
+                RECURSIVE go(_, _, _) 
+                go(j, x, y) == IF j > Len(c.script) THEN [x |-> x, y |-> y]
+                               ELSE LET op == c.script[j] IN
+                                    IF op.op = "xfer" THEN go(j + 1, [bal |-> BSub(x.bal, op.amt), xf |-> Append(x.xf, <<c.self, Low4(op.to), op.amt>>)], y)
+                                    ELSE IF op.op = "ckpt" THEN go(j + 1, x, x)
+                                    ELSE go(j + 1, x, y)
+                st == [bal |-> BAdd(a0.bal, CreditX(c)), xf |-> <<>>]
+            IN go(1, st, st)
+HasOp(c, name) == \E j \in 1..Len(c.script) : c.script[j].op = name
+\* every generated transfer is payable: known payee that asks for no gas, amount within the caller's free balance, l = 0
+XferOK(c, arg) ==
+  \A j \in 1..Len(c.script) : c.script[j].op = "xfer" =>
+      LET op == c.script[j] di == IF Small32(op.to) THEN SvcIndex(c.svcs, Low4(op.to)) ELSE 0
+          spent == BSum([q \in 1..j |-> IF c.script[q].op = "xfer" THEN c.script[q].amt ELSE <<>>])
+          a == SelfAfterArg(c, arg)
+      IN /\ di # 0 /\ IsZero(c.svcs[di].m) /\ IsZero(op.l)
+         /\ BLe(BAdd(spent, Sub(AcctThresholdX(a), 1, 8)), a.bal) /\ Fits64(AcctThresholdX(a))
 
 \* ---------------------------------------------------------------- results
 \* code availability (R1 / I1): the case says how the driver installed the code
@@ -174,11 +199,16 @@ Judge(e, DevHash) ==
        LET a0 == c.svcs[SvcIndex(c.svcs, c.self)]
            bal == BAdd(a0.bal, CreditX(c))
            arg == CHOOSE x \in args : TRUE
-       IN (IF BFits(bal, 8) /\ e.bal # BPad(bal, 8) THEN {"incoming transfers not credited exactly"} ELSE {})     \* P-credit
+           view == IF k = "ok" THEN XView(c).x ELSE XView(c).y
+           start == BAdd(BSum([q \in 1..Len(c.svcs) |-> c.svcs[q].bal]), CreditX(c))
+           final == BAdd(BSum([q \in 1..Len(e.bals) |-> e.bals[q][2]]), BSum([q \in 1..Len(e.xfers) |-> e.xfers[q][3]]))
+       IN (IF BFits(bal, 8) /\ e.bal # BPad(view.bal, 8) THEN {IF HasOp(c, "xfer") THEN "caller balance after transfers / collapse" ELSE "incoming transfers not credited exactly"} ELSE {})     \* P-credit
+          \cup (IF BFits(bal, 8) /\ e.xfers # view.xf THEN {"deferred transfers of the result"} ELSE {})
+          \cup (IF BFits(bal, 8) /\ ~BLe(final, start) THEN {"Conservation: balances + deferred transfers of the result exceed the start"} ELSE {})
           \cup (IF ~UsedOK(c, e.used) THEN {"gas used"} ELSE {})
           \cup (IF k = "ok" THEN
                   (IF ~e.hasa \/ e.sta # arg THEN {"argument encoding"} ELSE {})
                   \cup (IF SlotsLen(c.script) = 0 THEN (IF e.haso THEN {"host-call view (slots)"} ELSE {})      \* a zero-length write stores nothing
                         ELSE IF ~e.haso \/ ~SlotsOK(c, aux, e.sto, arg, FALSE) THEN {"host-call view (slots)"} ELSE {})
-                ELSE IF e.hasa \/ e.haso THEN {"effects of a run that did not complete"} ELSE {})
+                ELSE IF e.haso \/ (e.hasa /\ ~HasOp(c, "ckpt")) THEN {"effects of a run that did not complete"} ELSE {})
 =============================================================================
